@@ -239,7 +239,9 @@ CHECKS = {
         "look-ahead counter (`la <= entry + off` while nothing has been consumed since the procedure's entry, `la <= cst` afterwards), procedure summaries with high-water mark and exit bound, "
         "loops analysed from an inductive head bound; never_stuck_of_checkWith (Lemmas/LaSound.lean) proves for ALL programs that a program which passes never ends in `parser is stuck`; "
         "glas_la_checked evaluates it on the regenerated parser (the counter never exceeds 14 of 1024); C02_never_stuck, C02_always_ok: on EVERY token list the run ends normally with all nodes finished; "
-        "C01_always: the model of parse_module returns a lossless tree for EVERY text (Props/C02La.lean, Props/C02Stuck.lean). The hand-written semantics of the DSL primitives (bump, nth, start/finish_node, expect, ...) are pinned to the source: "
+        "C01_always: the model of parse_module returns a lossless tree for EVERY text (Props/C02La.lean, Props/C02Stuck.lean). Recursion depth (e): no constant bound exists on the current tree (recorded finding), but "
+        "maxDepth_linear (Lemmas/DepthSound.lean, for all checked programs: along nested activations the potential rankBound*entry position + (rankBound - rank) strictly increases) and C02_depth_linear: on EVERY token list "
+        "the run ends normally with at most 5*(tokens+1) activations open at once (glas_rankBound = 5 by kernel evaluation on the regenerated parser). The hand-written semantics of the DSL primitives (bump, nth, start/finish_node, expect, ...) are pinned to the source: "
         "xlate compares the token text of every primitive method of impl Parser with xlate/primitives.expected and refuses the translation otherwise. Mark discipline (Props/C02Marks.lean): a second "
         "certificate checker mcheck (live marks of each frame as a stack ordered by event position, opened/closed; start_node_before only on the "
         "topmost closed mark; exactly the topmost mark passed to a callee; nothing opened left at any exit) with mcheck_sound proved for all "
